@@ -465,3 +465,31 @@ def check_C15(ctx, replay=None):
     }
     return finish(ctx, "model_checking", cov,
                   ["the window between two hook points is covered by the stress part only"])
+
+
+def check_C06(ctx, replay=None):
+    res = run_tlc(ctx, "IndexCrash", "MCIndexCrash.cfg", workers=2, tags=("TABLE",), timeout=600)
+    _tlc_must_hold(ctx, res, "c06:tlc-invariant")
+    dv = run_tlc(ctx, "IndexCrash", "MCIndexCrashDev.cfg", workers=2, tags=(), timeout=600, expect_error=True)
+    if dv.ok:
+        raise core.ToolError("specification self-test failed: MCIndexCrashDev.cfg (index files opened as found) should violate Recovers")
+    table, nrows = _dedupe_table(ctx, res, "idx-table.ndjson")
+    binary = cargo_build(ctx, "h-store")
+    hr = run_harness(ctx, binary, ["idxcrash", table], timeout=6000)
+    for v in hr.violations:
+        add_violation(ctx, v["key"], v["detail"], v["replay"])
+    cov = {
+        "evaluations": hr.stats["evaluations"], "distinct_nontrivial": hr.stats["distinct_classes"],
+        "samples": hr.stats.get("samples", []), "images": hr.stats.get("images"), "table_rows": nrows,
+        "sealed_segments": hr.stats.get("sealed_segments"), "states": res.distinct, "transitions": res.generated,
+        "rule": "IndexCrash.tla enumerates, for the three index files of a sealed segment independently, the section a crash cut "
+                "the file in (empty, magic, counts, MPHF, bloom filter, records, complete: 252 joint classes) and requires that "
+                "reopening succeeds and lookups are total (the design rebuilds an incomplete file from the fsynced segment; the "
+                "as-is behaviour is a named deviation that violates the invariant). Each class is expanded on a real data "
+                "directory (history with two sealed segments, three streams, two partitions, multi-event transactions, background "
+                "flush completed): every file cut to section boundaries +-1 and strided interior lengths, the image reopened with "
+                "DatabaseBuilder::open and every event looked up by id, stream scan and partition scan against the reference log. "
+                "evaluations = images opened; distinct_nontrivial = joint classes run (quick: all single-file classes, every ninth joint one).",
+    }
+    return finish(ctx, "fault_enumeration", cov,
+                  ["the sealed segment's data file is complete (the rollover fsyncs it before the index flush starts)"])
